@@ -1,5 +1,10 @@
 package harness
 
+import (
+	"fmt"
+	"os"
+)
+
 // spec.go — registry: which profile, oracles and non-triviality rule decide each property.
 
 type Spec struct {
@@ -282,11 +287,26 @@ func init() {
 		Rule: "stateful rapid histories, 'slash' profile biased to redelegate-then-undelegate / redelegate-onward shapes; oracle = the slashing callback returns nil without panic (callback level: return value; real staking slash: the error x/staking logs and swallows is captured from the logger), leaves the rebalance flag set, and its effects are complete (the C06 and C07 oracles run as sub-checks); non-trivial = slash with a pending redelegation out of the slashed validator whose destination position has since shrunk below the redelegated amount, disappeared, or whose asset was deleted; distinct = distinct concrete op list",
 	})
 	register(&Spec{
-		ID:         "C17",
-		Profile:    func(tier string) Profile { return tierSteps(configProfile(), tier) },
+		ID: "C17",
+		Profile: func(tier string) Profile {
+			// odd shards explore the accepted-configuration space, even shards reachable states
+			// after real slashes, jailing and drained assets (power profile, more exits)
+			var shard int
+			fmt.Sscan(os.Getenv("VERIF_SHARD"), &shard)
+			if shard%2 == 0 {
+				p := powerProfile()
+				p.Name = "power+drain"
+				p.Weights[KUndelegate] = 16
+				p.Weights[KSlash] = 10
+				p.Weights[KRedelegate] = 8
+				p.Weights[KDelete] = 1
+				return tierSteps(p, tier)
+			}
+			return tierSteps(configProfile(), tier)
+		},
 		Oracles:    func() []Oracle { return []Oracle{OracleC17{}} },
 		NonTrivial: func(x *Exec) bool { return x.Has("c17:block-after-gov-change") },
-		Rule:       "stateful rapid histories, 'accepted-config' profile: parameter and asset values drawn from everything the governance handlers accept (durations 0, 1ns .. MaxInt64; rates 1e-18 .. 1e18; weights 0 .. 1e12) followed by blocks at all spacings; oracle = alliance.EndBlocker returns nil and does not panic; non-trivial = a block executed after a governance message was accepted mid-history; distinct = distinct concrete op list",
+		Rule:       "stateful rapid histories; odd shards: 'accepted-config' profile: parameter and asset values drawn from everything the governance handlers accept (durations 0, 1ns .. MaxInt64; rates 1e-18 .. 1e18; weights 0 .. 1e12) followed by blocks at all spacings; even shards: 'power' profile with real staking slashes (exchange rate != 1), jail/unjail, full exits and drained assets; oracle = alliance.EndBlocker returns nil and does not panic; non-trivial = a block executed after a governance message was accepted mid-history; distinct = distinct concrete op list",
 	})
 	register(&Spec{
 		ID:      "C02",
